@@ -77,12 +77,20 @@ fn db_layouts(r: &mut Rng) -> Vec<Vec<TcpOption>> {
 }
 
 fn gen_tcp_entries(r: &mut Rng, big: bool) -> TcpEntries {
+    let nl = if big { r.range(8, 40) } else { r.range(1, 6) } as usize;
+    gen_tcp_entries_shape(r, nl, if big { 6 } else { 3 }, None)
+}
+
+/// `nl` labels; each with `fixed` signatures when given, else 0..=`max_ns`
+fn gen_tcp_entries_shape(r: &mut Rng, nl: usize, max_ns: u64, fixed: Option<usize>) -> TcpEntries {
     let layouts = db_layouts(r);
     let quirks = [gen_quirks(r), gen_quirks(r)];
-    let nl = if big { r.range(8, 40) } else { r.range(1, 6) } as usize;
     (0..nl)
         .map(|i| {
-            let ns = if r.chance(1, 8) { 0 } else { r.range(1, if big { 6 } else { 3 }) } as usize;
+            let ns = match fixed {
+                Some(k) => k,
+                None => (if r.chance(1, 8) { 0 } else { r.range(1, max_ns) }) as usize,
+            };
             let sigs = (0..ns)
                 .map(|_| {
                     let mut s = gen_tcp_sig(r);
@@ -159,6 +167,10 @@ fn tcp_queries(r: &mut Rng, e: &TcpEntries, n_extra: usize) -> Vec<TcpObservatio
 
 fn gen_http_entries(r: &mut Rng, big: bool, versions: &[Version]) -> HttpEntries {
     let nl = if big { r.range(8, 40) } else { r.range(1, 6) } as usize;
+    gen_http_entries_shape(r, nl, if big { 6 } else { 3 }, None, versions)
+}
+
+fn gen_http_entries_shape(r: &mut Rng, nl: usize, max_ns: u64, fixed: Option<usize>, versions: &[Version]) -> HttpEntries {
     // a shared skeleton so that several signatures accept the same observation at different distances
     let skel = {
         let mut h = gen_sig_headers(r, 5, true);
@@ -169,7 +181,10 @@ fn gen_http_entries(r: &mut Rng, big: bool, versions: &[Version]) -> HttpEntries
     };
     (0..nl)
         .map(|i| {
-            let ns = if r.chance(1, 8) { 0 } else { r.range(1, if big { 6 } else { 3 }) } as usize;
+            let ns = match fixed {
+                Some(k) => k,
+                None => (if r.chance(1, 8) { 0 } else { r.range(1, max_ns) }) as usize,
+            };
             let sigs = (0..ns)
                 .map(|_| {
                     let mut s = gen_http_sig(r, versions);
@@ -432,6 +447,10 @@ fn emit_keys(ctx: &mut Ctx, r: &mut Rng) {
     }
 }
 
+fn all_versions_early() -> [Version; 5] {
+    [Version::V10, Version::V11, Version::V20, Version::V30, Version::Any]
+}
+
 fn direct_db(tr: TcpEntries, ts: TcpEntries, hr: HttpEntries, hs: HttpEntries) -> Database {
     Database {
         classes: vec![],
@@ -604,6 +623,31 @@ pub fn run(ctx: &mut Ctx) {
         let q = http_queries(&mut r, &db.http_response.entries, 2);
         for chunk in q.chunks(8) {
             emit_http(ctx, &db, 1, chunk);
+        }
+    }
+    // shapes far from the bundled database: labels with hundreds of signatures (positions beyond 255),
+    // and (thorough) more labels than 16 bits can index — the answer must still be the first best entry
+    {
+        let shapes: Vec<(usize, usize)> = if ctx.n(0, 1) == 1 { vec![(1, 300), (3, 270), (70_000, 1)] } else { vec![(1, 300), (3, 270)] };
+        for (nl, ns) in shapes {
+            let db = direct_db(
+                gen_tcp_entries_shape(&mut r, nl, 0, Some(ns)),
+                vec![],
+                gen_http_entries_shape(&mut r, nl.min(400), 0, Some(ns), &all_versions_early()),
+                vec![],
+            );
+            // observations that are instances of the LAST entries (late labels / signature positions >= 256)
+            let vs = [Version::V10, Version::V11, Version::V20, Version::V30];
+            let tall: Vec<tcp::Signature> = db.tcp_request.entries.iter().flat_map(|(_, v)| v.iter().cloned()).collect();
+            let tq: Vec<TcpObservation> = (0..24).map(|k| tcp_instance(&mut r, &tall[tall.len() - 1 - (k * 7) % 40.min(tall.len())])).collect();
+            for chunk in tq.chunks(if nl > 1000 { 2 } else { 12 }) {
+                emit_tcp(ctx, &db, 0, chunk);
+            }
+            let hall: Vec<http::Signature> = db.http_request.entries.iter().flat_map(|(_, v)| v.iter().cloned()).collect();
+            let hq: Vec<http::Signature> = (0..24).map(|k| http_instance(&mut r, &hall[hall.len() - 1 - (k * 7) % 40.min(hall.len())], &vs)).collect();
+            for chunk in hq.chunks(12) {
+                emit_http(ctx, &db, 0, chunk);
+            }
         }
     }
     // databases built directly (signature HTTP versions 2 and 3, which the text format lacks;
